@@ -1393,8 +1393,11 @@ of [Stack] and/or [Stack] type alias instances.
 
 See also the [Stack.IsNesting] method.
 */
-func (r Stack) CanNest() bool {
-	return r.getState(nnest)
+func (r Stack) CanNest() (can bool) {
+	if r.IsInit() {
+		can = !r.getState(nnest)
+	}
+	return
 }
 
 /*
